@@ -355,6 +355,15 @@ type lexInterp struct {
 	only        map[string]bool   // rules whose obligations are recorded (nil = all)
 	dropKinds   map[string]bool   // token kinds whose value starts after consumed input (leading delimiter)
 	nTok        int
+	boolCaps    []*lexBoolCap // boolean scanners being interpreted in condition position (innermost last)
+}
+
+// lexBoolCap collects the states at the returns of a boolean lexer method that consumes input (`if
+// l.scanExponentMarker() { ... }`), split by the returned truth value.
+type lexBoolCap struct {
+	fd   *ast.FuncDecl
+	t, f []*lexState
+	bad  bool
 }
 
 type lexFrame struct {
@@ -1340,6 +1349,19 @@ func (li *lexInterp) condCall(call *ast.CallExpr, in []*lexState, fr *lexFrame) 
 	// pure lookahead helper of the lexer: must not modify the lexer
 	if m, ok := li.lexerMethodCall(call); ok {
 		if !li.isPure(li.methods[m], 0) {
+			// a conditional scanner: interpreted in place, its returns split by the value they report
+			fd := li.methods[m]
+			isBool := fd.Type.Results != nil && len(fd.Type.Results.List) == 1 && types.TypeString(li.info.TypeOf(fd.Type.Results.List[0].Type), nil) == "bool"
+			if isBool && len(li.boolCaps) < 3 {
+				cap := &lexBoolCap{fd: fd}
+				li.boolCaps = append(li.boolCaps, cap)
+				li.inline(fd, cloneAll(in), fr, call)
+				li.boolCaps = li.boolCaps[:len(li.boolCaps)-1]
+				li.curFrame = fr
+				if !cap.bad && len(cap.t)+len(cap.f) > 0 {
+					return normalize(cap.t), normalize(cap.f)
+				}
+			}
 			li.undecided(fr, call, "boolean lexer helper that modifies the lexer state")
 		}
 	}
@@ -2127,6 +2149,23 @@ func (li *lexInterp) inline(fd *ast.FuncDecl, in []*lexState, fr *lexFrame, at a
 func (li *lexInterp) ret(s *ast.ReturnStmt, in []*lexState, fr *lexFrame) {
 	returnsToken := fr.fd.Type.Results != nil && len(fr.fd.Type.Results.List) == 1 && typeHasSuffix(li.info.TypeOf(fr.fd.Type.Results.List[0].Type), "parser.Token")
 	if !returnsToken {
+		if n := len(li.boolCaps); n > 0 && li.boolCaps[n-1].fd == fr.fd && len(s.Results) == 1 {
+			cap := li.boolCaps[n-1]
+			switch identOf(s.Results[0]).Name {
+			case "true":
+				cap.t = append(cap.t, cloneAll(in)...)
+			case "false":
+				cap.f = append(cap.f, cloneAll(in)...)
+			default:
+				if call, ok := ast.Unparen(s.Results[0]).(*ast.CallExpr); ok {
+					if m, ok := li.lexerMethodCall(call); ok && !li.isPure(li.methods[m], 0) {
+						cap.bad = true
+					}
+				}
+				tt, ff := li.cond(s.Results[0], cloneAll(in), fr)
+				cap.t, cap.f = append(cap.t, tt...), append(cap.f, ff...)
+			}
+		}
 		fr.rets = append(fr.rets, cloneAll(in)...)
 		if len(s.Results) > 0 {
 			for _, r := range s.Results {
